@@ -240,7 +240,9 @@ func forFor(f *forExpander) forStateFn {
 
 	f.forLineLabelsToWrite = make([]string, len(f.forLineLabels))
 	for i, label := range f.forLineLabels {
-		f.forLineLabelsToWrite[i] = fmt.Sprintf("__for_%s_%s", f.forCountLabel, label)
+		// the labels keep their names, so that code outside the block (and
+		// inner blocks expanded by later passes) can refer to them
+		f.forLineLabelsToWrite[i] = label
 	}
 
 	f.forCount = val
@@ -345,7 +347,7 @@ func forRof(f *forExpander) forStateFn {
 				} else {
 					found := false
 					for _, label := range f.forLineLabels {
-						forLabel := fmt.Sprintf("__for_%s_%s", f.forCountLabel, label)
+						forLabel := label
 						if tok.val == label {
 							f.tokens <- token{tokText, forLabel}
 							found = true
